@@ -45,7 +45,8 @@ def check(ctx):
     cg = CallGraph(prog)
     entries = decode_entries(prog)
     ctx.floor("R-2", "decode entry points", len(entries), 24)
-    dreach = cg.reachable(entries)
+    dreach_nodes = cg.reachable(entries)
+    dreach = {cg.def_of(k) for k in dreach_nodes}
     ctx.count("decode_reachable_functions", len(dreach))
 
     # ---- R-1 ---------------------------------------------------------------------
@@ -132,7 +133,7 @@ def check(ctx):
                 for g in prog.real_fns():
                     if not g.is_pub or g.closure_of:
                         continue
-                    if g.key == f.key or f.key in _reach(cg, g.key, pub_reach_cache):
+                    if g.key == f.key or f.key in {cg.def_of(k) for k in _reach(cg, g.key, pub_reach_cache)}:
                         if not g.doc_panics:
                             docs_missing.append(g.key)
                 ok = unreachable and not docs_missing and (f.doc_panics or not f.is_pub)
@@ -165,7 +166,7 @@ def check(ctx):
                "ledger table entry (%s, %s) exists in the code" % (fk, cal), kind="missing-anchor")
 
     # ---- R-3 recursion ---------------------------------------------------------------
-    sccs = cg.sccs(dreach)
+    sccs = cg.sccs(dreach_nodes)
     ctx.count("decode_sccs", len(sccs))
     for comp in sccs:
         _check_scc(ctx, prog, cg, comp)
@@ -320,7 +321,7 @@ def _invariant(ctx, prog, cg, f, bb, t, which):
         cb = prog.fn("header::ProtectedHeader::cbor_bstr")
         pcb = Prov(cb)
         errs = []
-        reach = cg.reachable([cb.key])
+        reach = {cg.def_of(k) for k in cg.reachable([cb.key])}
         for k in sorted(reach):
             g = prog.fns[k]
             if not g.blocks:
@@ -362,12 +363,13 @@ def _check_scc(ctx, prog, cg, comp):
     name = comp[0]
     key = "scc:%s" % name
     compset = set(comp)
-    reparses = [k for k in comp if any(callee_path(t) == READ for _, t in prog.fns[k].calls())]
+    F = lambda k: prog.fns[cg.def_of(k)]
+    reparses = [k for k in comp if any(callee_path(t) == READ for _, t in F(k).calls())]
     if not reparses:
         # kind (a): value-structural
         problems = []
         for k in comp:
-            f = prog.fns[k]
+            f = F(k)
             pv = Prov(f)
             vp = _value_param(f)
             for tgt, sites in cg.edges.get(k, {}).items():
@@ -400,7 +402,7 @@ def _check_scc(ctx, prog, cg, comp):
     problems = []
     dec_edges = set()
     for k in comp:
-        f = prog.fns[k]
+        f = F(k)
         bp = _budget_param(f)
         if bp is None:
             problems.append("%s re-enters the parser in a call cycle but has no usize budget parameter" % k)
@@ -409,7 +411,7 @@ def _check_scc(ctx, prog, cg, comp):
         for tgt, sites in cg.edges.get(k, {}).items():
             if tgt not in compset:
                 continue
-            g = prog.fns[tgt]
+            g = F(tgt)
             gbp = _budget_param(g)
             for kind, bb in sites:
                 if kind != "call" or gbp is None:
@@ -435,8 +437,10 @@ def _check_scc(ctx, prog, cg, comp):
         for tgt, sites in tgts.items():
             if tgt not in compset:
                 continue
-            f = prog.fns[caller]
-            g = prog.fns[tgt]
+            if cg.def_of(caller) not in prog.fns:
+                continue
+            f = prog.fns[cg.def_of(caller)]
+            g = F(tgt)
             gbp = _budget_param(g)
             pv = Prov(f)
             for kind, bb in sites:
